@@ -75,7 +75,7 @@ func (c *ClientCodec) Decode(response []byte, context *core.ClientContext) (resu
 			for i, r := range res {
 				t := reflect2.Type2(context.ReturnType[i])
 				p := t.New()
-				if err = c.Codec.Unmarshal(r, p); err != nil {
+				if err = c.Codec.Unmarshal(rawOrNull(r), p); err != nil {
 					return
 				}
 				result = append(result, t.Indirect(p))
